@@ -40,8 +40,8 @@ added to an existing hypergraph.  Budgets are counts, quick / thorough:
   order 3 and directed (a call costs < 1 ms): 300 / 4000 undirected and 200 / 3000 directed random hypergraphs, each
     with ALL of the variants above (directed ones for both orders);
   order 4 undirected (a call costs ~0.45 s because the implementation rebuilds its 171-class table three times per
-    call; ~480 / ~9300 calls in total): census of 40 / 1500 random hypergraphs; all 119 non-identity permutations of
-    1 / 6 random 5-node hypergraphs and 10 / 30 random permutations of 3 / 40 on 6..7 nodes; 10 insertion orders of
+    call; ~480 / ~8500 calls in total): census of 40 / 1000 random hypergraphs; all 119 non-identity permutations of
+    1 / 6 random 5-node hypergraphs and 10 / 30 random permutations of 3 / 30 on 6..7 nodes; 10 insertion orders of
     3 / 80; larger hyperedges added to 6 / 100.
 A few degenerate inputs (empty, isolated nodes only, singleton hyperedges only, fewer nodes than the order) are run for
 both functions and both orders.
@@ -785,10 +785,10 @@ def _plan(ctx):
         p5 = _possible_u(5, 2, 4)
         for idx in _index_sets(len(p5), 3):
             heavy.append(dict(kind="u", order=4, edges=[p5[i] for i in idx], isolated=[], weighted=False, census=True))
-    for _ in range(40 if q else 1500):  # random census (sizes 1..6, isolated, weighted, odd labels)
+    for _ in range(40 if q else 1000):  # random census (sizes 1..6, isolated, weighted, odd labels)
         g = _random_u(rng, 4, 7)
         heavy.append(dict(kind="u", order=4, census=True, **g))
-    n5, nbig, nperm = (1, 3, 10) if q else (6, 40, 30)
+    n5, nbig, nperm = (1, 3, 10) if q else (6, 30, 30)
     made5 = madebig = 0
     while made5 < n5 or madebig < nbig:  # relabelling
         g = _random_u(rng, 5, 7)
